@@ -257,6 +257,7 @@ impl Task {
     pub fn set_data(&self, vars: &Vars, Tracked(h): Tracked<&mut Heap>)
         requires old(h).has(self.id@)
         ensures final(h).has(self.id@), data_written(*old(h), *final(h), self.id@),
+                fwd(*old(h), *final(h)), old(h).wf() ==> final(h).wf(), final(h).cur == old(h).cur,     // consequences (lemma_data_written_fwd)
     { unimplemented!() }
     #[verifier::external_body]
     pub fn flag(&self, key: &str, Tracked(h): Tracked<&Heap>) -> (r: Option<bool>)
@@ -267,6 +268,7 @@ impl Task {
     pub fn set_flag(&self, key: &str, v: bool, Tracked(h): Tracked<&mut Heap>)
         requires old(h).has(self.id@)
         ensures *final(h) == (Heap { tasks: old(h).tasks.insert(self.id@, TaskAbs { flags: old(h).tasks[self.id@].flags.insert(key@, v), ..old(h).tasks[self.id@] }), ..*old(h) }),
+                fwd(*old(h), *final(h)), old(h).wf() ==> final(h).wf(), final(h).cur == old(h).cur,     // consequences (lemma_flag_fwd)
     { unimplemented!() }
 
     // children = tasks whose prev link is this task, ordered by timestamp (process.rs: Process::children)
@@ -328,11 +330,15 @@ impl Process {
     pub fn set_state(&self, state: TaskState, Tracked(h): Tracked<&mut Heap>)
         requires legal(old(h).proc_state, state)
         ensures *final(h) == (Heap { proc_state: state, ..*old(h) }),
+                fwd(*old(h), *final(h)), final(h).cur == old(h).cur,     // consequences
+                old(h).wf() && (!st_terminal(state) || !old(h).has(ROOT_TID@) || st_terminal(old(h).st(ROOT_TID@))) ==> final(h).wf(),
     { unimplemented!() }
     #[verifier::external_body]
     pub fn set_err(&self, err: &Error, Tracked(h): Tracked<&mut Heap>)
         requires legal(old(h).proc_state, TaskState::Error)
         ensures *final(h) == (Heap { proc_state: TaskState::Error, proc_err: Some(*err), ..*old(h) }),
+                fwd(*old(h), *final(h)), final(h).cur == old(h).cur,     // consequences
+                old(h).wf() && (!old(h).has(ROOT_TID@) || st_terminal(old(h).st(ROOT_TID@))) ==> final(h).wf(),
     { unimplemented!() }
     #[verifier::external_body]
     pub fn task(&self, tid: &str, Tracked(h): Tracked<&Heap>) -> (r: Option<Arc<Task>>)
@@ -348,7 +354,10 @@ impl Process {
         requires prev is Some ==> old(h).has(prev->Some_0.id@)
         ensures
             !old(h).has(r.id@), r.node == *node,
+            // only the workflow node gets the root tid "$" (process.rs: create_task)
+            r.id@ == ROOT_TID@ <==> node.s_kind() == NodeKind::Workflow,
             *final(h) == (Heap { tasks: old(h).tasks.insert(r.id@, fresh_task(*node, match prev { Some(p) => Some(p.id@), None => None })), ..*old(h) }),
+            fwd(*old(h), *final(h)), old(h).wf() && r.id@ != ROOT_TID@ ==> final(h).wf(), final(h).cur == old(h).cur, wf_task(*final(h), *r),   // consequences (lemma_create_fwd)
     { unimplemented!() }
 }
 impl Runtime {
@@ -359,6 +368,7 @@ impl Runtime {
     pub fn push(&self, task: &Arc<Task>, Tracked(h): Tracked<&mut Heap>)
         requires old(h).has(task.id@)
         ensures *final(h) == (Heap { queue: old(h).queue.push(task.id@), ..*old(h) }),
+                fwd(*old(h), *final(h)), old(h).wf() ==> final(h).wf(), final(h).cur == old(h).cur,     // consequences
     { unimplemented!() }
 }
 // what one task event does (summary of the `on_task` handler registered in Runtime::initialize: upsert, hooks, message):
@@ -378,6 +388,7 @@ impl Scheduler {
     #[verifier::external_body]
     pub fn emit_proc_event(&self, proc: &Arc<Process>, Tracked(h): Tracked<&mut Heap>)
         ensures *final(h) == (Heap { proc_events: old(h).proc_events.push(old(h).proc_state), ..*old(h) }),
+                fwd(*old(h), *final(h)), old(h).wf() ==> final(h).wf(), final(h).cur == old(h).cur,     // consequences
     { unimplemented!() }
 }
 pub uninterp spec fn eval_result<T>(expr: Seq<char>, h: Heap) -> Result<T>;
@@ -387,13 +398,73 @@ pub open spec fn data_only(a: Heap, b: Heap) -> bool {
     &&& forall|t: Tid| #[trigger] a.has(t) ==> b.tasks[t] == (TaskAbs { data_rev: b.tasks[t].data_rev, ..a.tasks[t] })
     &&& b == (Heap { tasks: b.tasks, ..a })
 }
+// each "consequences" line of a stub above is implied by its exact clause; proved here once
+pub proof fn lemma_stub_consequences(a: Heap, t: Tid, k: Seq<char>, v: bool, x: Tid, node: Arc<Node>, prev: Option<Tid>, s: TaskState, e: Error, b2: Heap)
+    requires a.has(t)
+    ensures
+        fwd(a, Heap { cur: t, ..a }) && (a.wf() ==> (Heap { cur: t, ..a }).wf()),
+        fwd(a, Heap { tasks: a.tasks.insert(t, TaskAbs { flags: a.tasks[t].flags.insert(k, v), ..a.tasks[t] }), ..a }),
+        a.wf() ==> (Heap { tasks: a.tasks.insert(t, TaskAbs { flags: a.tasks[t].flags.insert(k, v), ..a.tasks[t] }), ..a }).wf(),
+        data_written(a, b2, t) ==> fwd(a, b2) && (a.wf() ==> b2.wf()) && b2.cur == a.cur,
+        !a.has(x) ==> fwd(a, Heap { tasks: a.tasks.insert(x, fresh_task(node, prev)), ..a }),
+        !a.has(x) && x != ROOT_TID@ && a.wf() ==> (Heap { tasks: a.tasks.insert(x, fresh_task(node, prev)), ..a }).wf(),
+        fwd(a, Heap { queue: a.queue.push(t), ..a }) && (a.wf() ==> (Heap { queue: a.queue.push(t), ..a }).wf()),
+        legal(a.proc_state, s) ==> fwd(a, Heap { proc_state: s, ..a }),
+        legal(a.proc_state, TaskState::Error) ==> fwd(a, Heap { proc_state: TaskState::Error, proc_err: Some(e), ..a }),
+        fwd(a, Heap { proc_events: a.proc_events.push(a.proc_state), ..a }),
+{
+    let h1 = Heap { tasks: a.tasks.insert(t, TaskAbs { flags: a.tasks[t].flags.insert(k, v), ..a.tasks[t] }), ..a };
+    assert forall|y: Tid| #[trigger] a.has(y) implies h1.has(y) && task_fwd(a.tasks[y], h1.tasks[y]) by {}
+    if data_written(a, b2, t) {
+        assert forall|y: Tid| #[trigger] a.has(y) implies b2.has(y) && task_fwd(a.tasks[y], b2.tasks[y]) by {}
+    }
+    if !a.has(x) {
+        let h2 = Heap { tasks: a.tasks.insert(x, fresh_task(node, prev)), ..a };
+        assert forall|y: Tid| #[trigger] a.has(y) implies h2.has(y) && task_fwd(a.tasks[y], h2.tasks[y]) by {}
+    }
+}
 pub proof fn lemma_data_only_fwd(a: Heap, b: Heap)
     requires data_only(a, b)
     ensures fwd(a, b), a.wf() ==> b.wf(), a.cur == b.cur
 {
     assert forall|t: Tid| #[trigger] a.has(t) implies b.has(t) && task_fwd(a.tasks[t], b.tasks[t]) by {}
 }
+impl Task {
+    // task.rs: update_data writes the variables into this task and into the ancestor that already holds the key (data only)
+    #[verifier::external_body]
+    pub fn update_data(&self, vars: &Vars, Tracked(h): Tracked<&mut Heap>)
+        requires old(h).has(self.id@)
+        ensures data_only(*old(h), *final(h)), fwd(*old(h), *final(h)), old(h).wf() ==> final(h).wf(), final(h).cur == old(h).cur,
+    { unimplemented!() }
+    // task.rs: outputs() fills the declared outputs from the scope (may evaluate expressions: data only)
+    #[verifier::external_body]
+    pub fn outputs(&self, Tracked(h): Tracked<&mut Heap>) -> (r: Vars)
+        requires old(h).has(self.id@)
+        ensures data_only(*old(h), *final(h)), fwd(*old(h), *final(h)), old(h).wf() ==> final(h).wf(), final(h).cur == old(h).cur,
+    { unimplemented!() }
+    // task.rs: is_auto_complete = data.get::<bool>("$auto_complete").unwrap_or(true)
+    #[verifier::external_body]
+    pub fn is_auto_complete(&self, Tracked(h): Tracked<&Heap>) -> (r: bool)
+        requires h.has(self.id@)
+        ensures r == (!h.tasks[self.id@].flags.dom().contains(consts::TASK_AUOT_COMPLETE@) || h.tasks[self.id@].flags[consts::TASK_AUOT_COMPLETE@]),
+    { unimplemented!() }
+    // task.rs: is_event_processed = data.get::<bool>("$is_event_processed").unwrap_or(false)
+    #[verifier::external_body]
+    pub fn is_event_processed(&self, Tracked(h): Tracked<&Heap>) -> (r: bool)
+        requires h.has(self.id@)
+        ensures r == (h.tasks[self.id@].flags.dom().contains(consts::IS_EVENT_PROCESSED@) && h.tasks[self.id@].flags[consts::IS_EVENT_PROCESSED@]),
+    { unimplemented!() }
+}
 impl Context {
+    // context.rs: prepare = init_vars: the task's inputs are written into its data (may evaluate input expressions: data only)
+    #[verifier::external_body]
+    pub fn prepare(&self, Tracked(h): Tracked<&mut Heap>)
+        requires old(h).wf()
+        ensures data_only(*old(h), *final(h)), fwd(*old(h), *final(h)), final(h).wf(), final(h).cur == old(h).cur,
+    { unimplemented!() }
+    // context.rs: vars() = clone of the context variables (RefCell, not part of the task heap)
+    #[verifier::external_body]
+    pub fn vars(&self) -> (r: Vars) { unimplemented!() }
     #[verifier::external_body]
     pub fn task(&self, Tracked(h): Tracked<&Heap>) -> (r: Arc<Task>)
         requires h.wf() ensures r.id@ == h.cur, wf_task(*h, *r) { unimplemented!() }
@@ -401,6 +472,7 @@ impl Context {
     pub fn set_task(&self, task: &Arc<Task>, Tracked(h): Tracked<&mut Heap>)
         requires wf_task(*old(h), **task)
         ensures *final(h) == (Heap { cur: task.id@, ..*old(h) }),
+                fwd(*old(h), *final(h)), old(h).wf() ==> final(h).wf(),     // consequences
     { unimplemented!() }
     // context.rs: eval = run the expression in the JS environment (QuickJS, FFI): ASSUMED
     #[verifier::external_body]
